@@ -148,6 +148,15 @@ func ApplyUpdater(u *cs.Updater, d cs.Doc) cs.Doc {
 			SetPath(n, k, cs.Clone(u.Values[k].X))
 		}
 		return n
+	case "poison":
+		// like "set", but the document whose field u equals N gets an invalid _expiresAt: the whole
+		// bulk operation must then fail and change nothing
+		n := cs.CloneDoc(d)
+		SetPath(n, u.Field, cs.Clone(u.Value.X))
+		if uv, ok := d["u"].(int64); ok && uv == u.N {
+			n["_expiresAt"] = "never"
+		}
+		return n
 	case "incr":
 		n := cs.CloneDoc(d)
 		switch x := Get(n, u.Field).(type) {
